@@ -50,6 +50,9 @@ SIG = {
                     [('data', 'List Int'), ('frombits', 'Int'), ('tobits', 'Int'), ('pad', 'Bool')], 'Option (List Int)'),
     # script assembly: a token is an opcode name / a hex string (modelled by the bytes it denotes) / an int
     'script_to_bytes': ('script.py', 'Script.to_bytes', [('OPS', 'List (String × Bytes)'), ('self_script', 'List Py.PyTok')], 'Bytes'),
+    # script disassembly (works on the bytes the hex string denotes)
+    'script_from_raw': ('script.py', 'Script.from_raw',
+                        [('CODEOPS', 'List (Bytes × String)'), ('scriptrawhex', 'Bytes'), ('has_segwit', 'Bool')], 'List Py.PyTok'),
     # transaction serialisation: objects are records of their fields (PyTxIn, PyTxOut, PyWit)
     'txwitness_to_bytes': ('transactions.py', 'TxWitnessInput.to_bytes', [('self_stack', 'List Bytes')], 'Bytes'),
     'txoutput_to_bytes': ('transactions.py', 'TxOutput.to_bytes',
@@ -98,11 +101,13 @@ FILE_CONSTS = {}
 # `while` loops are translated with an explicit iteration bound (a Lean term over the variables in scope at loop
 # entry); running out of it raises PyErr.fellThrough, which no Python exception maps to - so a bound that is too
 # small shows up as a disagreement with the implementation and as an unprovable equivalence, never silently.
-WHILE_FUEL = {'convertbits': '(Int.toNat bits + 1)'}
+WHILE_FUEL = {'convertbits': '(Int.toNat bits + 1)',
+              # every iteration of Script.from_raw advances the index by at least one byte
+              'script_from_raw': '(List.length scriptraw + 1)'}
 # return types of translated callees that are lists (for `+` -> `++`)
 LIST_RET = {'bech32_hrp_expand', 'bech32_create_checksum'}
 POINT_RET = {'point_add': 'schnorr_point_add', 'point_mul': 'schnorr_point_mul', 'lift_x': 'schnorr_lift_x'}
-CALLS = {'rol': 'rmd_rol', 'fi': 'rmd_fi', '_push_integer': 'push_integer',
+CALLS = {'rol': 'rmd_rol', 'fi': 'rmd_fi', '_push_integer': 'push_integer', 'vi_to_int': 'vi_to_int',
          'encode_varint': 'encode_varint', 'prepend_compact_size': 'prepend_compact_size',
          '_op_push_data': 'op_push_data', 'parse_compact_size': 'parse_compact_size',
          'bech32_polymod': 'bech32_polymod', 'bech32_hrp_expand': 'bech32_hrp_expand'}
@@ -130,7 +135,7 @@ def blit(b):
 class Tr:
     def __init__(s, name, file=None):
         s.name = name; s.tmp = 0; s.pre = []; s.declared = set(); s.points = set(); s.tuple5 = set()
-        s.toklists = set(); s.tokvars = set(); s.optables = set(); s.byteslists = set(); s.reclists = {}; s.recvars = {}
+        s.toklists = set(); s.tokvars = set(); s.optables = set(); s.byteslists = set(); s.reclists = {}; s.recvars = {}; s.revtables = set()
         s.fconsts = FILE_CONSTS.get(file, {})
 
     def fail(s, n, why):
@@ -213,6 +218,9 @@ class Tr:
         if (isinstance(n, ast.Compare) and len(n.ops) == 1 and isinstance(n.ops[0], ast.In) and isinstance(n.left, ast.Name)
                 and n.left.id in s.tokvars and isinstance(n.comparators[0], ast.Name) and n.comparators[0].id == 'OP_CODES'):
             return f'(Py.tokInTable OPS {n.left.id})'
+        if (isinstance(n, ast.Compare) and len(n.ops) == 1 and isinstance(n.ops[0], ast.In) and isinstance(n.comparators[0], ast.Name)
+                and n.comparators[0].id == 'CODE_OPS' and 'CODEOPS' in s.revtables):
+            return f'(Py.inTableB CODEOPS {s.e(n.left)})'
         if isinstance(n, ast.Compare) and len(n.ops) == 1:
             a, b = s.e(n.left), s.e(n.comparators[0])
             op = {ast.Lt: '<', ast.LtE: '≤', ast.Gt: '>', ast.GtE: '≥', ast.Eq: '==', ast.NotEq: '!='}.get(type(n.ops[0]))
@@ -342,7 +350,7 @@ class Tr:
             return t
         if isinstance(n, ast.Constant) and isinstance(n.value, bool): return t
         if isinstance(n, ast.Call) and isinstance(n.func, ast.Name) and n.func.id in ('isinstance', 'is_infinite', 'has_even_y', 'schnorr_verify'): return t
-        if t.startswith('(Py.tokInTable'): return t
+        if t.startswith('(Py.tokInTable') or t.startswith('(Py.inTableB'): return t
         if isinstance(n, ast.Name) and n.id in s.boolvars: return t
         if isinstance(n, ast.Attribute) and 'self_' + n.attr in s.boolvars: return t
         if s.isbytes(n): return f'(!({t}).isEmpty)'
@@ -456,6 +464,10 @@ class Tr:
         if (isinstance(st, ast.Expr) and isinstance(st.value, ast.Call) and getattr(st.value.func, 'id', '') == 'debug_print_vars'
                 and 'p' in s.fconsts):
             return []      # prints only when schnorr.DEBUG is set (checked to be False at generation time)
+        if (isinstance(st, ast.Return) and isinstance(st.value, ast.Call) and getattr(st.value.func, 'id', '') == 'Script'
+                and s.ret == 'List Py.PyTok' and len(st.value.keywords) == 1 and st.value.keywords[0].arg == 'script'
+                and isinstance(st.value.keywords[0].value, ast.Name) and st.value.keywords[0].value.id in s.toklists):
+            return s.flush(ind) + [f'{ind}return {st.value.keywords[0].value.id}']
         if isinstance(st, ast.Return):
             t = s.e(st.value) if st.value else '()'
             if s.ret == POINT:
@@ -480,6 +492,11 @@ class Tr:
                 v = s.e(st.value)
                 return s.flush(ind) + [f'{ind}({", ".join(x.id for x in tg.elts)}) := {v}']
             if not isinstance(tg, ast.Name): s.fail(st, 'assignment target')
+            if s.ret == 'List Py.PyTok' and isinstance(st.value, ast.List) and not st.value.elts:
+                s.toklists.add(tg.id)
+                kw = '' if tg.id in s.declared else 'let mut '
+                s.declared.add(tg.id)
+                return [f'{ind}{kw}{tg.id} := ([] : List Py.PyTok)']
             k = s.kind(st.value)
             v = s.e(st.value); name = tg.id
             if (isinstance(st.value, ast.Tuple) and len(st.value.elts) == 5) or \
@@ -497,6 +514,16 @@ class Tr:
         if isinstance(st, ast.AugAssign) and isinstance(st.target, ast.Name):
             v = s.e(ast.BinOp(left=st.target, op=st.op, right=st.value))
             return s.flush(ind) + [f'{ind}{st.target.id} := {v}']
+        if (isinstance(st, ast.Expr) and isinstance(st.value, ast.Call) and isinstance(st.value.func, ast.Attribute)
+                and st.value.func.attr == 'append' and isinstance(st.value.func.value, ast.Name)
+                and st.value.func.value.id in s.toklists and len(st.value.args) == 1):
+            nm = st.value.func.value.id; a = st.value.args[0]
+            if isinstance(a, ast.Call) and isinstance(a.func, ast.Attribute) and a.func.attr == 'hex' and not a.args:
+                v = f'Py.PyTok.data {s.e(a.func.value)}'              # <bytes>.hex(): a hex-data token
+            elif isinstance(a, ast.Subscript) and isinstance(a.value, ast.Name) and a.value.id == 'CODE_OPS' and 'CODEOPS' in s.revtables:
+                v = 'Py.PyTok.name ' + s.eff(f'Py.lookupB CODEOPS {s.e(a.slice)}')
+            else: s.fail(st, 'append to a token list')
+            return s.flush(ind) + [f'{ind}{nm} := {nm} ++ [{v}]']
         if (isinstance(st, ast.Expr) and isinstance(st.value, ast.Call) and isinstance(st.value.func, ast.Attribute)
                 and st.value.func.attr == 'append' and isinstance(st.value.func.value, ast.Name)
                 and st.value.func.value.id in s.intlists and len(st.value.args) == 1):
@@ -576,6 +603,7 @@ class Tr:
         s.byteslists = {p for p, t in params if t == 'List Bytes'}
         s.reclists = {p: RECORDS[t] for p, t in params if t in RECORDS}; s.recvars = {}
         s.optables = {p for p, t in params if t == 'List (String × Bytes)'}
+        s.revtables = {p for p, t in params if t == 'List (Bytes × String)'}
         params = [(p, POINT if t == 'Point' else t) for p, t in params]
         if ret == 'Point': ret = POINT
         s.ret = ret
